@@ -61,6 +61,7 @@ func c02Run(c c02Case) Outcome {
 }
 
 func c02RunInBubble(c c02Case) (out Outcome) {
+	resetRetained()
 	cl := c.Layout.build()
 	cl.Tape = c.Tape
 	cl.LatencyTape = true
@@ -195,6 +196,9 @@ func c02RunInBubble(c c02Case) (out Outcome) {
 	}
 	if first != nil {
 		return *first
+	}
+	if n, err := recheckRetained(); err != nil {
+		return viol("result-changed-later", "%v (%d results retained; cellblocks=%v snappy=%v)", err, n, c.CellBlocks, c.Snappy)
 	}
 	if len(problems) > 0 {
 		return viol("wire-problem", "the simulated servers saw malformed traffic: %v", problems)
